@@ -20,8 +20,12 @@ type solverSpec struct {
 
 var solvers = []solverSpec{
 	{"z3-new", func(f string, s int) []string { return []string{"z3-new", fmt.Sprintf("-T:%d", s), f} }},
+	{"z3-new/ematch", func(f string, s int) []string {
+		return []string{"z3-new", fmt.Sprintf("-T:%d", s), "smt.mbqi=false", "smt.arith.solver=2", f}
+	}},
 	{"cvc5", func(f string, s int) []string { return []string{"cvc5", fmt.Sprintf("--tlimit=%d", s*1000), f} }},
 	{"z3", func(f string, s int) []string { return []string{"z3", fmt.Sprintf("-T:%d", s), f} }},
+	{"z3/ematch", func(f string, s int) []string { return []string{"z3", fmt.Sprintf("-T:%d", s), "smt.mbqi=false", f} }},
 }
 
 type solveResult struct {
@@ -105,7 +109,7 @@ func getModel(dir, id, query, solver string, secs int) string {
 	file := filepath.Join(dir, id+".model.smt2")
 	os.WriteFile(file, []byte(query+"(get-model)\n"), 0o644)
 	for _, sp := range solvers {
-		if sp.name == solver {
+		if sp.name == solver || sp.name == strings.Split(solver, "/")[0] {
 			r := runSolver(context.Background(), sp, file, secs)
 			return r.out
 		}
